@@ -353,7 +353,7 @@ class kLeastAbsErrorsCycles(walkmodel.AbstractWalkModelDiGraph):
         non_empty_walks = []
         non_empty_weights = []
         for walk, weight in zip(solution["walks"], solution["weights"]):
-            if len(walk) > 1:
+            if len(walk) > 1 or (len(walk) == 1 and self.flow_attr_origin == "node"):
                 non_empty_walks.append(walk)
                 non_empty_weights.append(weight)
 
